@@ -19,7 +19,7 @@
 
   Part 5 (`view_*`): the C++ view helpers that take rendered type names, base-class names and argument texts apart
   (`CppViewHelper.VarType.annotated`, `Param.var_type_origin`, `SuperInitializer.parse`; Model/ViewHelper.lean) decide by WHOLE
-  names. Part 6 (`name_sites_*`): the GENERATED table of every comparison of a user-controlled name with words py2cpp.py spells
+  names; the capture list of a lambda / closure (`equivariant_capture`). Part 6 (`name_sites_*`): the GENERATED table of every comparison of a user-controlled name with words py2cpp.py spells
   out itself (translate/gen_c08_names.py, Generated/C08Names.lean): each member-name comparison a user class can reach
   (`items`, `pop`, `on`, `value`, …) is tied to the TYPE of the receiver by a guard.
 
@@ -73,6 +73,7 @@
   | cpp_view_helper.py:80-85 `Param.var_type_origin`: `startswith('const ')`, `endswith('*' / '&')`, group 2 of `Param.VarType`, `split('<')[0]` | qualifier with blank, last character, run of type characters | yes: `view_var_type_origin` (on the generated pattern itself: C18 `var_type_origin_plain/_const`) |
   | cpp_view_helper.py:17-22 `SuperInitializer.parse` `([\w\d]+)::__init__\(([^;]*)\);$` | identifier before `::__init__(`, text up to `);` | yes: `view_super_initializer` |
   | py2cpp.py `….prop.tokens in FuncCallSpec.dict_iter_methods / list_methods / str_methods`, `== CVars.Verbs.*.value`, `in ['name', 'value']` (25 member-name comparisons; generated table C08Names) | equality / membership of a MEMBER name with words a user class may use too | yes because each stands under a guard on the receiver's TYPE: `name_sites_guarded` (a dropped guard — seeded mutation on `on_for` — falsifies it and is exhibited by the member-spelling programs of the search) |
+  | primary.py:672-674 `Lambda.ref_vars`, statement_compound.py:584-586 `Closure.ref_vars`: `var.domain_name not in ignore_names`; py2cpp.py:416-425 dict keys | membership of a WHOLE name in the list of parameter names; dict keys | yes: `equivariant_capture`; the `startswith(<parameter names>)` variant (seeded mutation) is refuted: `capture_prefix_counterexample` |
   | py2cpp.py:1757 ListSortKeyPattern, :1793,1858,1874 BlockParser calls | lambda text / bracket blocks | search only (real-code equivariance); BlockParser is property C18 |
 -/
 import Tranp.Lemmas.Scope
@@ -81,6 +82,7 @@ import Tranp.Lemmas.Naming
 import Tranp.Lemmas.Fragment
 import Tranp.Lemmas.Regex
 import Tranp.Lemmas.ViewHelper
+import Tranp.Lemmas.Capture
 import Tranp.Generated.C08Regex
 import Tranp.Generated.C08Sites
 import Tranp.Generated.C08Names
@@ -602,6 +604,35 @@ example :
     superInitParse (['B','a','s','e','_','2'] ++ superCallMid ++ ['a',',',' ','b'] ++ [')', ';']) = .ok (['B','a','s','e','_','2'], ['a',',',' ','b']) ∧
     Gen.superInitParse (['B','a','s','e','_','2'] ++ superCallMid ++ ['a',',',' ','b'] ++ [')', ';']) = .ok (['B','a','s','e','_','2'], ['a',',',' ','b']) := by
   decide +kernel
+
+/-! ### the capture list of a lambda / closure (`Lambda.ref_vars`, `Closure.ref_vars`, `make_lambda_binds`) -/
+
+section
+variable {N N' : Type} [DecidableEq N] [DecidableEq N']
+
+/-- The referenced variables that are not the lambda's own parameters, and the capture list built from them (first reference
+    first, every name once), commute with every injective renaming: which variables are captured depends on which names are
+    EQUAL to a parameter's name, not on how any two names are spelled relative to each other. -/
+theorem equivariant_capture (r : N → N') (hr : Function.Injective r) (params refs : List N) :
+    Capture.refVars (params.map r) (refs.map r) = (Capture.refVars params refs).map r ∧
+    Capture.binds (params.map r) (refs.map r) = (Capture.binds params refs).map r :=
+  ⟨Capture.refVars_map r hr params refs, Capture.binds_map r hr params refs⟩
+
+end
+
+/-- REGRESSION (seeded mutation): with the parameters removed by `startswith(<parameter names>)` a captured variable whose name
+    begins with a parameter's name (`factor_bias` beside the parameter `factor`) drops out of the capture list. -/
+theorem capture_prefix_counterexample :
+    ¬ ∀ params refs : List Str, Capture.refVarsBroken params refs = Capture.refVars params refs := by
+  intro h
+  have h1 := h [['f','a','c','t','o','r']] [['f','a','c','t','o','r'], ['f','a','c','t','o','r','_','b','i','a','s'], ['g','a','i','n']]
+  revert h1
+  decide +kernel
+
+/-- non-vacuity: `lambda factor: factor + factor_bias + gain + gain` captures `factor_bias, gain` -/
+example : Capture.binds [['f','a','c','t','o','r']]
+    [['f','a','c','t','o','r'], ['f','a','c','t','o','r','_','b','i','a','s'], ['g','a','i','n'], ['g','a','i','n']] =
+    [['f','a','c','t','o','r','_','b','i','a','s'], ['g','a','i','n']] := by decide +kernel
 
 /-! ## Part 6: every member-name comparison of py2cpp.py is tied to the receiver's type (generated table) -/
 
